@@ -151,6 +151,20 @@ def run_c20(ctx):
     n_gen = len(cases)
     for i in range(300 if quick else 6000):
         cases.append(gen_core.gen_case(ctx.seed, 80000 + i, n_states=1, n_calls=3, ground_only=True))
+    # several actions of one domain grounded one after the other: the same literal text, e.g. (p ?x), under
+    # parameters of different types (an action over a narrow type next to one over a broad type)
+    import gen_hist
+    from drive_hist import type_correct_args
+    for i in range(80 if quick else 1500):
+        hc = gen_hist.gen_case(ctx.seed, 85000 + i)
+        crng = random.Random(ctx.seed * 31 + i)
+        calls = []
+        for _ in range(2):
+            for name, params in hc["acts"]:
+                calls.append({"act": name, "args": type_correct_args(crng, params, hc["objs"]), "s": 0, "mode": "ground"})
+        crng.shuffle(calls)
+        cases.append({"id": 85000 + i, "tree": hc["dom"], "objs": hc["objs"],
+                      "states": [gen_core.random_state(crng, hc["objs"])], "calls": calls})
     tf = ctx.drive("core", cases, hashseeds=hashseeds, opts={"snaps": False})
     ctx.validate(tf, {c["id"]: c for c in cases}, driver="core", opts={"snaps": False})
     n = 0
